@@ -189,6 +189,12 @@ def run_check(prop_id, tier='quick', seed=0, verbose=False):
     from vf import env
     env.bootstrap()
     prop = load_prop(prop_id)
+    import glob
+    for stale in glob.glob(os.path.join(VERIF_DIR, 'replays', '%s-*.json' % prop_id)):
+        try:
+            os.remove(stale)
+        except OSError:
+            pass
     nshards = nworkers()
     timeout_s = float(os.environ.get('VERIF_TIMEOUT_S', getattr(prop, 'TIMEOUT_S', {}).get(tier, 1500 if tier == 'quick' else 7200)))
     procs = []
